@@ -23,6 +23,7 @@ pub static PROP: Prop = Prop {
     rule: "enumerated: 48 sizes x {rows, cols, data, EC, blocks, region grid, uniqueness of dimensions, is_square, is_dmre}; default/extended/all lists; every width and height range with bounds 0..=150 in the six RangeBounds shapes on the default and the extended list; generated: filter chains of length 1-4 over white-lists from 48-bit masks (given in random order with duplicates) and encodings checking iteration order and 'first large enough'; non-trivial = range cases with a bound within +-1 of an existing dimension, lists with capacity ties, chains of >= 2 filters; distinct by case",
     assumptions: &["attribute table R6 transcribed from ISO/IEC 16022 Table 7 and ISO/IEC 21471 Table 1", "crate symbol sizes are linked to the table by their Debug names (Square10 .. Rect26x64)"],
     extra: super::no_extra,
+    fuzz_runs: 100000,
 };
 
 fn list_mask(l: &SymbolList) -> u64 {
@@ -371,7 +372,7 @@ fn g_chain() -> BoxedStrategy<ChainCase> {
 // symbol picked = first of the iteration order that is large enough
 // ------------------------------------------------------------------------------------------------
 
-fn check_pick(c: &EncCase) -> Verdict {
+pub fn check_pick(c: &EncCase) -> Verdict {
     if c.list == 0 {
         return Verdict::Pass(Pass::new("pick/empty-list", false));
     }
@@ -439,9 +440,9 @@ fn run(ctx: &Arc<Ctx>) {
         }
     }
     ctx.run_enumerated("range-sweep", "sweep", sweeps, Some("every width and height range with bounds 0..=150 in 8 RangeBounds shapes on the default and extended list"), check_sweep);
-    ctx.run_generated("chains", "chain", ctx.cases(20_000, 1_000_000), g_chain, check_chain);
+    ctx.run_generated("chains", "chain", ctx.cases(100_000, 2_000_000), g_chain, check_chain);
     let o = EncGenOpts { long_weight: 1, macro_weight: 1, allow_fnc1: false, ..Default::default() };
-    ctx.run_generated("pick", "enc", ctx.cases(10_000, 300_000), || g_enc_case(o), check_pick);
+    ctx.run_generated("pick", "enc", ctx.cases(100_000, 1_000_000), || g_enc_case(o), check_pick);
 }
 
 fn replay(_ctx: &Ctx, kind: &str, case: &Value) -> Option<Verdict> {
